@@ -275,6 +275,13 @@ def Dec.isZero (d : Dec) : Bool := d.int.all (· == '0') && d.frac.all (· == '0
 def stripZeros (l : List Char) : List Char := match l.dropWhile (· == '0') with | [] => ['0'] | r => r
 /-- `"%d" % float`: truncation -/
 def Dec.fmtD (d : Dec) : List Char := stripZeros d.int
+/-- drop trailing zeros -/
+def stripTrail (l : List Char) : List Char := (l.reverse.dropWhile (· == '0')).reverse
+/-- `"%g" % float` for decimals below 10^6 with at most six significant digits: shortest plain form -/
+def Dec.fmtG (d : Dec) : List Char :=
+  match stripTrail d.frac with
+  | [] => stripZeros d.int
+  | f => stripZeros d.int ++ '.' :: f
 /-- `"%f" % float` for decimals with at most six fractional digits -/
 def Dec.fmtF (d : Dec) : List Char := stripZeros d.int ++ '.' :: (d.frac ++ List.replicate (6 - d.frac.length) '0').take 6
 
@@ -379,7 +386,7 @@ def emitPil (s : St) : List String :=
   ++ (s.strands.map (fun e =>
       "strand " ++ (if e.dummy then "[dummy] " else "") ++ p ++ e.name ++ " = " ++ itemNames p e.items ++ " : " ++ toString e.len))
   ++ (s.structs.map (fun e =>
-      "structure [" ++ String.ofList e.opt.fmtD ++ "nt] " ++ p ++ e.name ++ " = " ++
+      "structure [" ++ String.ofList e.opt.fmtG ++ "nt] " ++ p ++ e.name ++ " = " ++
         joinWith " + " (e.strands.map (p ++ ·)) ++ " : " ++ String.ofList e.struct))
   ++ (s.kins.map (fun k =>
       "kinetic [" ++ (match k.low with | some d => String.ofList d.fmtF | none => "0.000000") ++ " /M/s < k < " ++
